@@ -185,7 +185,7 @@ def focused_query(pc, goal, defs):
     return plain + chosen, g
 
 
-def smt_check(pc, goal, timeout_ms=None, want_model=None, use_cvc5=True, defs=None):
+def smt_check(pc, goal, timeout_ms=None, want_model=None, use_cvc5=True, defs=None, deadline_s=None):
     """(status, backend, secs, model) for pc |= goal ; status in discharged/refuted/undecided."""
     t0 = time.time()
     folded = regex_fold([z3.simplify(c) for c in pc] + [z3.simplify(z3.Not(goal))])
@@ -213,7 +213,7 @@ def smt_check(pc, goal, timeout_ms=None, want_model=None, use_cvc5=True, defs=No
     # stage 2: the original query by relevance layers.  unsat of a weaker/abstracted query is unsat of the
     # original (sound); sat answers are only ever taken from the original, complete query below.
     from .smt import deselect
-    deadline = t0 + float(os.environ.get('PYVC_DEADLINE_S', '30'))
+    deadline = t0 + float(deadline_s or os.environ.get('PYVC_DEADLINE_S', '30'))
 
     def left():
         return deadline - time.time()
@@ -369,7 +369,8 @@ def serialize_query(o, want):
 
 
 def solve_serialized(arg):
-    q, timeout_ms = arg
+    q, timeout_ms = arg[:2]
+    deadline_s = arg[2] if len(arg) > 2 else None
     fs = list(z3.parse_smt2_string(q['smt2']))
     if len(fs) != q['n'] + 1:
         # z3 may merge / split assertions when printing: fall back to a single undifferentiated query
@@ -387,7 +388,7 @@ def solve_serialized(arg):
         srt = {'Int': z3.IntSort(), 'Bool': z3.BoolSort(), 'String': z3.StringSort()}.get(sort)
         if srt is not None:
             want[k] = z3.Const(name.strip('|'), srt)
-    return smt_check(pc, goal, timeout_ms, want, defs=defs)
+    return smt_check(pc, goal, timeout_ms, want, defs=defs, deadline_s=deadline_s)
 
 
 class FunctionReport:
@@ -559,7 +560,15 @@ def prove_function(world, make_models, contract, timeout_ms=None, arg_terms_out=
         import multiprocessing as mp
         payload = [serialize_query(flatq[i][1], want) for i in hard]
         with cf.ProcessPoolExecutor(max_workers=min(inner_jobs, len(hard)), mp_context=mp.get_context('spawn')) as ex:
-            for i, r in zip(hard, ex.map(solve_serialized, [(p, timeout_ms) for p in payload])):
+            # two phases: when most of a first batch already runs into the per-obligation deadline (a changed function
+            # under an unchanged contract), the remaining queries get a short deadline - they are reported as
+            # undecided either way, and the check ends in minutes instead of (obligations x deadline / workers)
+            nfirst = min(len(hard), 2 * inner_jobs)
+            first = list(ex.map(solve_serialized, [(p, timeout_ms) for p in payload[:nfirst]]))
+            slow = sum(1 for r in first if r[0] == 'undecided')
+            short = 8.0 if (slow >= 4 and 2 * slow >= nfirst) else None
+            rest = list(ex.map(solve_serialized, [(p, timeout_ms, short) for p in payload[nfirst:]]))
+            for i, r in zip(hard, first + rest):
                 results[i] = r
     else:
         for i in hard:
